@@ -265,6 +265,10 @@ class Env:
         return Sym(tag, self)
 
 
+import re as _re
+_ADDR = _re.compile(r'0x[0-9a-fA-F]+')
+
+
 def tag_of(v, env):
     if isinstance(v, Sym): return v._tag
     if v is None or v is True or v is False: return v
@@ -278,7 +282,9 @@ def tag_of(v, env):
     if isinstance(v, dict): return ('app', 'map', tuple(t for k, x in v.items() for t in (tag_of(k, env), tag_of(x, env))))
     if isinstance(v, slice):
         return ('app', 'slice', tuple(tag_of(x, env) for x in ((v.start, v.stop) if v.step is None else (v.start, v.stop, v.step))))
-    return ('atom', const_atom(v))
+    if type(v) is str: return ('atom', const_atom(_ADDR.sub('0x?', v)))
+    if type(v) in (int, float, bytes, complex, type(Ellipsis)): return ('atom', const_atom(v))
+    return ('atom', 'native:' + type(v).__name__)
 
 
 def _bin(sym):
@@ -339,8 +345,8 @@ class Iter:
         env.events.append((self.index, self.calls))
         if self.calls > 1: raise StopIteration
         ar = env.arities[self.index] if self.index < len(env.arities) else 0
-        if ar == 0: return Sym(('item', self.index), env)
-        return tuple(Sym(('item', self.index, j), env) for j in range(ar))
+        if ar == 0: return env.make(('item', self.index))
+        return tuple(env.make(('item', self.index, j)) for j in range(ar))
 
 
 def real_run(code, kind, assign, none_candidates=()):
@@ -391,13 +397,23 @@ def subst_items(tag, sub, assign=None, top=True, nonec=None):
             tag = sub.get(tag[1], tag)
         elif tag[0] == 'app':
             args = tuple(subst_items(a, sub, assign, True, nonec) for a in tag[2]); f = tag[1]
-            native = [const_of(a)[0] for a in args]
+            native = [is_native(a) for a in args]
             if (f.startswith('un:') and native[0]) or (f.startswith('bin:') and all(native)) or (f in CMPSYM.values() and native[0]) \
                     or (f.startswith('attr:') and native[0]) or (f == 'subscr' and native[0]) or (f.startswith('call') and native[0]) or (f == 'in' and native[1]):
                 raise SkipValidation('operator applied to a constant operand is computed by CPython itself')
             tag = fold_fstring(('app', f, args))
-        if top and assign and assign.get(('none', tag)) and (nonec is None or tag in nonec): return None
+        if top and assign and assign.get(('none', tag)) and (nonec is None or tag in nonec) and not is_native(tag): return None
     return tag
+
+
+def is_native(tag):
+    """values that are real CPython objects in the real run (constants, displays, generator objects): their operators, truth and
+    identity are decided by CPython, not by the scripted objects"""
+    if const_of(tag)[0]: return True
+    if isinstance(tag, tuple) and tag[0] == 'app':
+        if tag[1] in ('tuple', 'list', 'set', 'map', 'slice'): return True
+        if tag[1] == 'call' and tag[2] and isinstance(tag[2][0], tuple) and tag[2][0][0] == 'atom' and tag[2][0][1].startswith('<genexpr:'): return True
+    return False
 
 
 def const_of(tag):
@@ -414,6 +430,7 @@ def fold_fstring(tag):
     f, args = tag[1], tag[2]
     if f.startswith('format:'):
         conv = int(f.split(':')[1]); isc, c = const_of(args[0])
+        if not isc and is_native(args[0]): raise SkipValidation('a CPython object is formatted by CPython itself')
         spec = ''
         if len(args) == 2:
             ok, spec = const_of(args[1])
@@ -463,13 +480,16 @@ def walk_tree(tree, names, assign, asked, sub, nonec=()):
         q = tree['q']
         if q[0] == 'truth':
             t = val(q[1])
-            b = t if t in (None, True, False) else answer(('truth', t))
-            b = bool(b)
+            isc, c = const_of(t)
+            if isc: b = bool(c)                                     # constants: CPython knows
+            elif isinstance(t, tuple) and t[0] == 'app' and t[1] in ('tuple', 'list', 'set', 'map'): b = len(t[2]) > 0
+            elif isinstance(t, tuple) and t[0] == 'app' and t[1] == 'call' and t[2] and isinstance(t[2][0], tuple) and t[2][0][0] == 'atom' and t[2][0][1].startswith('<genexpr:'): b = True
+            else: b = answer(('truth', t))
         else:
             t = pre(q[1]); u = val(q[2])
             if u is None:
                 if t is None: b = True
-                elif t in (True, False) or const_of(t)[0]: b = False
+                elif t in (True, False) or is_native(t): b = False
                 else: b = answer(('none', t)) if t in nonec else False
             elif isinstance(t, tuple) and t[0] in ('atom', 'item') and isinstance(u, tuple) and u[0] in ('atom', 'item'): b = (t == u)
             else: raise SkipValidation('general identity test')
@@ -481,6 +501,7 @@ def walk_tree(tree, names, assign, asked, sub, nonec=()):
         for j, t in enumerate(targets):
             if sub.get(names[t]) not in (('item', k), ('item', k, j)): raise SkipValidation('targets recorded by the model differ from the STORE instructions')
     lo = [val(it) for it, _ in o[1]]
+    if any(is_native(x) or x is None for x in lo[1:]): raise SkipValidation('a loop over a CPython object is run by CPython itself')
     y = [val(t) for t in o[2]]
     return ('pass', lo, y, o[3])
 
@@ -547,9 +568,25 @@ def decompile_real(code):
 
 
 class RenameFirstIter(ast.NodeTransformer):
+    """`.0` -> T; a FormattedValue outside a JoinedStr (what FORMAT_VALUE alone decompiles to) means f'{v}': wrap it so that
+    ast.unparse prints it with that meaning; a format_spec must be a JoinedStr for ast.unparse"""
     def visit_Name(self, n):
         if n.id == '.0': return ast.copy_location(ast.Name(FIRST_ITER, ast.Load()), n)
         return n
+    def fv(self, n):
+        n.value = self.visit(n.value)
+        if n.format_spec is not None:
+            sp = n.format_spec
+            if isinstance(sp, ast.JoinedStr): sp = self.visit_JoinedStr(sp)
+            elif isinstance(sp, ast.FormattedValue): sp = ast.JoinedStr([self.fv(sp)])
+            else: sp = ast.JoinedStr([self.visit(sp)])
+            n.format_spec = sp
+        return n
+    def visit_JoinedStr(self, n):
+        n.values = [self.fv(v) if isinstance(v, ast.FormattedValue) else self.visit(v) for v in n.values]
+        return n
+    def visit_FormattedValue(self, n):
+        return ast.JoinedStr([self.fv(n)])
 
 
 def recompile(node, kind):
@@ -642,7 +679,7 @@ def judge(p, reply, limit=256):
         k = 1
         if validate:
             m = outs[k]; k += 1
-            if m != ('skip',) and real[-1] != 'foreign' and canon_out(m) != canon_out(real) and res['divergence'] is None and real[0] != 'exc':
+            if m != ('skip',) and real[-1] != 'foreign' and 'native:' not in repr(real) and canon_out(m) != canon_out(real) and res['divergence'] is None and real[0] != 'exc':
                 res['divergence'] = {'assign': show_assign(assign), 'model': repr(canon_out(m)), 'real': repr(canon_out(real))}
         if code2 is not None:
             d = outs[k]
@@ -816,3 +853,367 @@ def strip_labels(e):
 
 def violation_key(kind, e):
     return '%s:%s' % (kind, pretty(canon_rename(e)))
+
+
+# ------------------------------------------------------------------------------------------------ canonical operators for keys
+TRANSPARENT_UNARY = ('neg', 'attr', 'isnone', 'isnotnone', 'attr2', 'bnot', 'pos')
+TRANSPARENT_BINARY = ('lt', 'add', 'in', 'sub', 'callkw', 'ne', 'le', 'mul', 'notin', 'call2', 'meth', 'tuple2', 'list2', 'sliceto')
+EXTRA = {'bnot': '~%s', 'pos': '+%s', 'attr2': '%s.q.r', 'ne': '%s != %s', 'le': '%s <= %s', 'mul': '%s * %s', 'notin': '%s not in %s',
+         'call2': 'f(%s, %s)', 'meth': '%s.m(%s)', 'tuple2': '(%s, %s)', 'list2': '[%s, %s]', 'sliceto': '%s[:%s]',
+         'fstr': "f'v{%s}w'", 'fstr2': "f'{%s!r}{%s:>4}'", 'slice3': '%s[%s:%s:%s]', 'gen': '(y for y in %s if %s)', 'genq': '(y.p for y in %s)',
+         'and3': '%s and %s and %s', 'or3': '%s or %s or %s', 'kw2': 'f(%s, k=%s, j=%s)'}
+_render_base = render
+
+
+def render(e):
+    k = e[0]
+    if k in EXTRA:
+        parts = tuple(render(c) if c[0] in ('a', 'lit') else '(%s)' % render(c) for c in e[1:])
+        return EXTRA[k] % parts
+    return _render_base(e)
+
+
+def canonical_ops(kind, e):
+    """rename uninterpreted operators to one representative (unary -> f(.), binary -> ==) wherever the failure survives it"""
+    def positions(e, path=()):
+        yield path, e
+        if e[0] not in ('a', 'lit'):
+            for i, c in enumerate(e[1:], 1): yield from positions(c, path + (i,))
+    def replace(e, path, new):
+        if not path: return new
+        i = path[0]
+        return e[:i] + (replace(e[i], path[1:], new),) + e[i + 1:]
+    cur = e
+    for path, sub in list(positions(e)):
+        node = cur
+        for i in path: node = node[i]
+        new = None
+        if node[0] in TRANSPARENT_UNARY: new = ('call1',) + node[1:]
+        elif node[0] in TRANSPARENT_BINARY: new = ('eq',) + node[1:]
+        if new is not None:
+            cand = replace(cur, path, new)
+            if violates(kind, cand) is not None: cur = cand
+    return cur
+
+
+_shrink_base = shrink
+
+
+def shrink(kind, e):
+    se, sj = _shrink_base(kind, e)
+    if sj is None: return se, sj
+    ce = canonical_ops(kind, se)
+    if ce != se:
+        se2, sj2 = _shrink_base(kind, ce)
+        if sj2 is not None: return se2, sj2
+    return se, sj
+
+
+# ------------------------------------------------------------------------------------------------ random larger programs
+def rand_expr(rng, size, scope, value_pos=True):
+    """random expression tree with about `size` nodes over the names in `scope`"""
+    if size <= 1:
+        r = rng.random()
+        if r < 0.08 and value_pos: return ('lit', rng.choice(['1', "'s'", 'None', 'True', '0']))
+        return ('a', rng.choice(scope))
+    r = rng.random()
+    if r < 0.22 or size == 2:
+        k = rng.choice(['not', 'not', 'neg', 'attr', 'call1', 'isnone', 'isnotnone', 'attr2', 'fstr', 'genq'] + (['bnot', 'pos'] if rng.random() < 0.1 else []))
+        return (k, rand_expr(rng, size - 1, scope, False))
+    if r < 0.80 or size == 3:
+        k = rng.choice(['and', 'and', 'or', 'or', 'eq', 'lt', 'add', 'in', 'sub', 'callkw', 'ne', 'le', 'mul', 'notin', 'call2', 'meth', 'tuple2', 'sliceto', 'fstr2', 'gen'])
+        i = rng.randint(1, size - 2)
+        if k == 'gen':
+            return (k, rand_expr(rng, i, scope, False), rand_expr(rng, size - 1 - i, scope + ['y'], False))
+        return (k, rand_expr(rng, i, scope, False), rand_expr(rng, size - 1 - i, scope, k not in ('and', 'or')))
+    k = rng.choice(['ife', 'ife', 'ife', 'chain', 'slice', 'and3', 'or3', 'kw2'] + (['slice3'] if size > 4 else []))
+    n = 4 if k == 'slice3' else 3
+    cuts = sorted(rng.sample(range(1, size - 1), n - 1)) if size - 2 >= n - 1 else None
+    if cuts is None: return rand_expr(rng, size, scope, value_pos) if size < 4 else ('ife',) + tuple(rand_expr(rng, 1, scope) for _ in range(3))
+    sizes = [b - a for a, b in zip([0] + cuts, cuts + [size - 1])]
+    return (k,) + tuple(rand_expr(rng, max(1, s), scope, k in ('slice', 'slice3', 'kw2') and j > 0) for j, s in enumerate(sizes))
+
+
+def rand_program(rng):
+    """-> structured program: {'lam': tree} | {'elt': tree, 'clauses': [{'target': str, 'iter': tree|None, 'conds': [tree]}]}"""
+    glob = ['a', 'b', 'c', 'd']
+    if rng.random() < 0.2:
+        return {'lam': rand_expr(rng, rng.randint(5, 12), glob)}
+    nclauses = rng.choice([1, 1, 2, 2, 3])
+    scope = list(glob); clauses = []
+    for ci in range(nclauses):
+        var = 'xuv'[ci]
+        if rng.random() < 0.2: target, new = '%s, %s2' % (var, var), [var, var + '2']
+        else: target, new = var, [var]
+        it = None
+        if ci > 0: it = rand_expr(rng, rng.randint(1, 3), scope, False) if rng.random() < 0.7 else ('a', 'U')
+        scope = scope + new
+        conds = [rand_expr(rng, rng.randint(2, 10), scope, False) for _ in range(rng.choice([0, 1, 1, 1, 2]))]
+        clauses.append({'target': target, 'iter': it, 'conds': conds})
+    return {'elt': rand_expr(rng, rng.randint(1, 8), scope), 'clauses': clauses}
+
+
+def render_prog(pr):
+    if 'lam' in pr: return 'lambda: (%s)' % render(pr['lam'])
+    parts = []
+    for c in pr['clauses']:
+        part = 'for %s in %s' % (c['target'], FIRST_ITER if c['iter'] is None else '(%s)' % render(c['iter']))
+        for ce in c['conds']: part += ' if (%s)' % render(ce)
+        parts.append(part)
+    return '((%s) %s)' % (render(pr['elt']), ' '.join(parts))
+
+
+def prog_of(kind, e):
+    if kind == 'lam': return {'lam': e}
+    if kind == 'elt': return {'elt': e, 'clauses': [{'target': 'x', 'iter': None, 'conds': []}]}
+    return {'elt': ('a', 'x'), 'clauses': [{'target': 'x', 'iter': None, 'conds': [e]}]}
+
+
+def prog_slots(pr):
+    if 'lam' in pr: return [('lam', pr['lam'])]
+    out = []
+    for c in pr['clauses']:
+        if c['iter'] is not None: out.append(('elt', c['iter']))
+        out += [('cond', ce) for ce in c['conds']]
+    return out + [('elt', pr['elt'])]
+
+
+def violates_src(src):
+    try:
+        p = prepare(src)
+    except Exception:
+        return None
+    if p['node'] is None: return None
+    j = judge(p, {}, limit=512)
+    return j if j['violation'] else None
+
+
+def prog_candidates(pr):
+    import copy
+    if 'lam' in pr:
+        for t in subtrees_replacements(pr['lam']): yield {'lam': t}
+        return
+    cl = pr['clauses']
+    if len(cl) > 1:
+        yield {'elt': pr['elt'], 'clauses': copy.deepcopy(cl[:-1])}
+        for k in range(1, len(cl)):
+            c2 = copy.deepcopy(cl[:k] + cl[k + 1:])
+            yield {'elt': pr['elt'], 'clauses': c2}
+    for ci, c in enumerate(cl):
+        for k in range(len(c['conds'])):
+            c2 = copy.deepcopy(cl); del c2[ci]['conds'][k]
+            yield {'elt': pr['elt'], 'clauses': c2}
+    for ci, c in enumerate(cl):
+        if ',' in c['target']:
+            c2 = copy.deepcopy(cl); c2[ci]['target'] = c['target'].split(',')[0]
+            yield {'elt': pr['elt'], 'clauses': c2}
+        if c['iter'] is not None:
+            for t in [('a', 'U')] + subtrees_replacements(c['iter']):
+                if t == c['iter']: continue
+                c2 = copy.deepcopy(cl); c2[ci]['iter'] = t
+                yield {'elt': pr['elt'], 'clauses': c2}
+        for k, ce in enumerate(c['conds']):
+            for t in subtrees_replacements(ce):
+                c2 = copy.deepcopy(cl); c2[ci]['conds'][k] = t
+                yield {'elt': pr['elt'], 'clauses': c2}
+    for t in [('a', 'x')] + subtrees_replacements(pr['elt']):
+        if t == pr['elt']: continue
+        yield {'elt': t, 'clauses': cl}
+
+
+def prog_size(pr):
+    return sum(tree_size(e) for _, e in prog_slots(pr)) + (10 * len(pr.get('clauses', [])))
+
+
+def shrink_prog(pr):
+    """greedy program-level shrinking (clauses, conditions, sub-expressions) -> (program, judgement)"""
+    cur = pr; curj = violates_src(render_prog(pr))
+    if curj is None: return pr, None
+    changed = True
+    while changed:
+        changed = False
+        for cand in prog_candidates(cur):
+            if prog_size(cand) >= prog_size(cur): continue
+            j = violates_src(render_prog(cand))
+            if j is not None:
+                cur, curj, changed = cand, j, True
+                break
+    return cur, curj
+
+
+def prog_key(pr):
+    """canonical id of a shrunk program: the three standard positions where it has that form, else the whole text"""
+    if 'lam' in pr: return violation_key('lam', pr['lam'])
+    cl = pr['clauses']
+    if len(cl) == 1 and cl[0]['target'] == 'x' and cl[0]['iter'] is None:
+        if not cl[0]['conds']: return violation_key('elt', pr['elt'])
+        if len(cl[0]['conds']) == 1 and pr['elt'] == ('a', 'x'): return violation_key('cond', cl[0]['conds'][0])
+    return 'program:' + ast.unparse(ast.parse(render_prog(pr), mode='eval'))
+
+
+# ------------------------------------------------------------------------------------------------ running a chunk of programs (one worker)
+WITNESSES = [   # DESIGN section 8 row 2 and the shapes found while building this check; replayed first on every run
+    ('cond', ('eq', ('a', 'a'), ('and', ('a', 'b'), ('a', 'c')))),
+    ('cond', ('and', ('a', 'a'), ('ife', ('a', 'c'), ('a', 'b'), ('a', 'd')))),
+    ('cond', ('call1', ('and', ('a', 'a'), ('a', 'b')))),
+    ('cond', ('add', ('and', ('a', 'a'), ('a', 'b')), ('a', 'c'))),
+    ('cond', ('or', ('ife', ('a', 'a'), ('a', 'b'), ('a', 'c')), ('a', 'd'))),
+    ('elt', ('and', ('a', 'a'), ('ife', ('a', 'c'), ('a', 'b'), ('a', 'd')))),
+    ('elt', ('ife', ('or', ('a', 'a'), ('not', ('a', 'b'))), ('a', 'c'), ('a', 'd'))),
+]
+
+
+def call_driver(cmd, cwd, requests):
+    import subprocess
+    if not requests: return []
+    data = '\n'.join(json.dumps(dict(r, p='C03')) for r in requests) + '\n'
+    p = subprocess.run(cmd, cwd=cwd, input=data, stdout=subprocess.PIPE, stderr=subprocess.PIPE, text=True, timeout=3600)
+    outs = [json.loads(l) for l in p.stdout.splitlines() if l.strip()]
+    if len(outs) != len(requests):
+        raise RuntimeError('driver returned %d lines for %d requests: %s' % (len(outs), len(requests), p.stderr[-300:]))
+    return outs
+
+
+def run_chunk(args):
+    """programs: structured programs (see rand_program / prog_of) or plain source strings -> summary dict"""
+    cmd, cwd, programs = args
+    sys.setrecursionlimit(10000)
+    import warnings; warnings.simplefilter('ignore')
+    programs = [(pr if isinstance(pr, str) else render_prog(pr), pr) for pr in programs]
+    out = {'counts': {}, 'violations': [], 'divergences': [], 'samples': [], 'n': 0, 'errors': []}
+    def count(k, n=1): out['counts'][k] = out['counts'].get(k, 0) + n
+    prepared = []
+    for src, pr in programs:
+        try:
+            prepared.append((src, pr, prepare(src)))
+        except Exception as e:
+            out['errors'].append('%s: prepare failed: %s: %s' % (src, type(e).__name__, e))
+    replies = [{}] * len(prepared)
+    if cmd:
+        try:
+            replies = call_driver(cmd, cwd, [request_of(p) for _, _, p in prepared])
+        except Exception as e:
+            out['errors'].append('driver: %s' % e); replies = [{}] * len(prepared)
+    for (src, pr, p), r in zip(prepared, replies):
+        out['n'] += 1
+        if 'driver_error' in r:
+            out['errors'].append('%s: driver_error %s' % (src, r['driver_error'])); r = {}
+        try:
+            j = judge(p, r)
+        except Exception as e:
+            out['errors'].append('%s: judge failed: %s: %s' % (src, type(e).__name__, e)); continue
+        slots = [] if isinstance(pr, str) else prog_slots(pr)
+        simple = not isinstance(pr, str) and ('lam' in pr or (len(pr['clauses']) == 1 and pr['clauses'][0]['iter'] is None and pr['clauses'][0]['target'] == 'x'
+                                                and (not pr['clauses'][0]['conds'] or (len(pr['clauses'][0]['conds']) == 1 and pr['elt'] == ('a', 'x')))))
+        position = ('lam' if 'lam' in pr else 'cond' if pr['clauses'][0]['conds'] else 'elt') if simple else 'program'
+        count('status:%s:%s' % (position, j['status']))
+        count('paths', j['paths'])
+        if j['truncated']: count('assignments-truncated')
+        if r.get('code_tree') is not None and not j['model_unsupported']: count('model-validated-against-cpython' if not j.get('validation_skipped') else 'model-validation-skipped:' + j['validation_skipped'])
+        elif r: count('model-unsupported-instruction')
+        if p['ast_unsupported']: count('ast-outside-checker:' + p['ast_unsupported'][:40])
+        if j['check'] is False: count('disagreements_checked')
+        if j['divergence']: out['divergences'].append({'src': src, **j['divergence']})
+        if j['violation']:
+            found = []
+            try:
+                if simple:
+                    kind = position; e = pr['lam'] if kind == 'lam' else (pr['clauses'][0]['conds'][0] if kind == 'cond' else pr['elt'])
+                    se, sj = shrink(kind, e)
+                    if sj is not None: found.append((violation_key(kind, se), wrap(kind, render(se)), sj))
+                elif slots:
+                    for kind, e in slots:          # a slot that fails on its own in the standard position
+                        if violates(kind, e) is None: continue
+                        se, sj = shrink(kind, e)
+                        if sj is not None: found.append((violation_key(kind, se), wrap(kind, render(se)), sj))
+                    if not found:                   # the failure needs the program around it
+                        sp, sj = shrink_prog(pr)
+                        if sj is not None:
+                            key = prog_key(sp)
+                            if not key.startswith('program:'):
+                                kind = key.split(':')[0]; e = sp['lam'] if kind == 'lam' else (sp['clauses'][0]['conds'][0] if kind == 'cond' else sp['elt'])
+                                se, sj2 = shrink(kind, e)
+                                if sj2 is not None: found.append((violation_key(kind, se), wrap(kind, render(se)), sj2))
+                            if not found: found.append((key, render_prog(sp), sj))
+            except Exception as ex:
+                out['errors'].append('%s: shrink failed: %s: %s' % (src, type(ex).__name__, ex))
+            if not found: found = [('program:' + src, src, j)]
+            for key, msrc, mj in found:
+                out['violations'].append({'key': key, 'src': src, 'minimal': msrc, 'decompiled': mj['decompiled'], 'assign': mj['violation']['assign'],
+                                          'original_outcome': mj['violation']['original'], 'decompiled_outcome': mj['violation']['decompiled']})
+        if len(out['samples']) < 2: out['samples'].append({'src': src, 'status': j['status'], 'decompiled': j['decompiled']})
+    return out
+
+
+def chunks(l, n):
+    for i in range(0, len(l), n): yield l[i:i + n]
+
+
+def report(ctx, results):
+    total = 0
+    for res in results:
+        total += res['n']
+        for k, v in res['counts'].items(): ctx.count(k, v)
+        for e in res['errors']: ctx.count('harness-error'); ctx.note(e[:300])
+        for s in res['samples']: ctx.case(s, kind='program')
+        for d in res['divergences']:
+            ctx.divergence('the bytecode model (decision tree of symRun) and CPython disagree on the outcome of the code object', d['src'], model=d['model'], impl={'real': d['real'], 'assign': d['assign']})
+        for v in res['violations']:
+            ctx.violation('decompile() returned an expression whose meaning differs from the code: %s decompiles to %s' % (v['minimal'], v['decompiled']),
+                          {'src': v['src'], 'minimal': v['minimal'], 'decompiled': v['decompiled'], 'environment': v['assign']},
+                          observed=v['decompiled_outcome'], expected=v['original_outcome'], key=v['key'])
+    return total
+
+
+def run(ctx):
+    sys.setrecursionlimit(10000)
+    cmd = ctx.driver.cmd if ctx.driver.ok else None
+    from framework import LEAN
+    if not ctx.driver.ok: ctx.note('driver unavailable: `check` not asked; the property oracle (original vs decompiled code executed) still runs')
+    interpreted = bool(cmd) and cmd[0] == 'lake'
+    programs = [prog_of(kind, e) for kind, e in WITNESSES]
+    # exhaustive part: every expression of the grammar up to size k, atoms up to renaming, in three positions
+    full_k = ctx.scale(4, 5); cf_k = ctx.scale(6, 7)
+    for n in range(1, full_k + 1):
+        for e in enumerate_exprs(n, 4):
+            for kind in ('cond', 'elt', 'lam'): programs.append(prog_of(kind, e))
+    # control-flow sub-grammar (the operators the decompiler's jump analysis depends on), deeper
+    saved = (dict(UNARY), dict(BINARY), dict(TERNARY))
+    try:
+        for d, keep in ((UNARY, ('not', 'call1')), (BINARY, ('and', 'or', 'eq')), (TERNARY, ('ife',))):
+            for o in list(d):
+                if o not in keep: del d[o]
+        shapes.__defaults__[0].clear()
+        for n in range(full_k + 1, cf_k + 1):
+            for e in enumerate_exprs(n, 4):
+                for kind in ('cond', 'elt', 'lam'): programs.append(prog_of(kind, e))
+    finally:
+        for d, sv in zip((UNARY, BINARY, TERNARY), saved): d.clear(); d.update(sv)
+        shapes.__defaults__[0].clear()
+    n_enum = len(programs)
+    for _ in range(ctx.scale(400, 6000)):
+        programs.append(rand_program(ctx.rng))
+    ctx.extra['enumerated'] = {'full_grammar_up_to_size': full_k, 'control_flow_grammar_up_to_size': cf_k, 'programs_enumerated': n_enum, 'random_programs': len(programs) - n_enum}
+    size = 4000 if interpreted else max(100, len(programs) // 96)
+    work = [(cmd, LEAN, c) for c in chunks(programs, size)]
+    procs = 4 if interpreted else 16
+    with multiprocessing.Pool(procs) as pool:
+        results = pool.map(run_chunk, work, chunksize=1)
+    total = report(ctx, results)
+    ctx.driver.calls += total
+    ctx.evaluations = total      # every program is one evaluation (samples registered above)
+    ctx.count('programs', total)
+    import hashlib
+    for pr in programs: ctx._distinct.add(hashlib.sha1(render_prog(pr).encode()).digest()[:8])
+    if any(k.startswith('harness-error') for k in ctx.counters):
+        ctx.divergence('the harness failed on some programs (see notes)', ctx.notes[:3])
+
+
+def replay(ctx, data):
+    src = (data.get('input') or {}).get('minimal') or (data.get('input') or {}).get('src')
+    if not src: return run(ctx)
+    from framework import LEAN
+    res = run_chunk((ctx.driver.cmd if ctx.driver.ok else None, LEAN, [src]))
+    for v in res['violations']: v['key'] = data.get('key') or v['key']
+    report(ctx, [res])
+    ctx.case({'src': src}, kind='replay')
